@@ -281,6 +281,23 @@ def main(argv):
                 if o is not None and o[0] != repr(S("approve")):
                     semfails.append({"kind": "free-verdict", "program": name, "version": version, "scratch_slots": ss, "frame_pointers": fp, "ctx": sx(ctx), "teal": r[1],
                                      "avm": repr(a)[:1500], "denote": "approve (the program checks its own arithmetic)"})
+    # the slow one (25 s per compilation): a self-recursive ABI-returning routine with locals of different storage types, under the
+    # scratch convention only (the spill code is what is being exercised)
+    for name, minv, build in c03_free.slow_programs(pt):
+        for version, fp in ([(6, None), (8, False)] if not thorough else [(5, None), (6, None), (7, None), (8, False), (10, False)]):
+            r = call_real(lambda: pt.compileTeal(build(), pt.Mode.Application, version=version, optimize=optimize_of(pt, None, fp)))
+            ck.count(("free-slow", name, version, fp), nontrivial=(r[0] == "ok"))
+            free_n += 1
+            if r[0] != "ok":
+                if r[1] not in PYTEAL_ERRORS:
+                    semfails.append({"kind": "free-crash", "program": name, "version": version, "frame_pointers": fp, "avm": r[1], "denote": "TEAL expected"})
+                continue
+            ctx = gen_context(rng, True)
+            a = run_teal(model, ctx, r[1])
+            o = observable(a)
+            if o is not None and o[0] != repr(S("approve")):
+                semfails.append({"kind": "free-verdict", "program": name, "version": version, "frame_pointers": fp, "ctx": sx(ctx), "teal": r[1],
+                                 "avm": repr(a)[:1500], "denote": "approve (the program checks its own arithmetic)"})
     ck.coverage["free_form_program_variants"] = free_n
 
     # 3. seeded random call graphs
